@@ -3,7 +3,7 @@
 (* C04: enumeration of ClientHello messages with the JA4 parts Ja4.tla     *)
 (* assigns; checks on the definition that the sorted parts are invariant   *)
 (* under permutation and GREASE insertion while the original-order parts   *)
-(* follow the order.  Families: ver, presence, perm, grease, sizes, misc, embed, alpn, lookalike, recver.  *)
+(* follow the order.  Families: ver, presence, perm, grease, sizes, big, misc, embed, alpn, lookalike, recver.  *)
 (***************************************************************************)
 EXTENDS Ja4, Json, IOUtils, TLC
 
@@ -59,6 +59,10 @@ Ciph(n) == [i \in 1..n |-> 4000 + ((i * 37) % 900)]
 Exts(n) == [i \in 1..n |-> Raw(300 + ((i * 11) % 200) + 200 * (i \div 200))]
 SizeCases == {[Base EXCEPT !.ciphers = Ciph(n), !.exts = Exts(m)] : n \in {1, 98, 99, 100, 130}, m \in {1, 98, 99, 100, 130}}
 
+\* ---- big: records far above an Ethernet MTU (a padding extension of n octets: post-quantum key shares, GRO/TSO captures, jumbo frames
+\* and loopback deliver them in ONE segment), up to the largest record a 16-bit length admits
+BigCases == {[Base EXCEPT !.exts = <<Sni(Host), Sv(<<772, 771>>), AlpnE(<<H2>>), RawB(21, Rep(0, n))>>] : n \in (IF IOEnv.VERIF_TIER = "thorough" THEN {1380, 1460, 1500, 2400, 5000} ELSE {1500, 2400})}
+
 \* ---- session ids, compression lists, unknown extension bodies
 MiscCases == {[Base EXCEPT !.sid = s, !.comps = c, !.exts = <<Sni(Host), RawB(65000, b), AlpnE(<<Http11>>), RawB(21, Rep(0, 40))>>] :
                 s \in {<<>>, Rep(9, 32), <<1>>}, c \in {<<0>>, <<1, 0>>}, b \in {<<>>, <<1, 2, 3>>, Rep(255, 300)}}
@@ -92,7 +96,7 @@ LookCases == {[Base EXCEPT !.ciphers = <<4865, Look[i], 4866, G1, Look[j]>>, !.e
 RecVerCases == {[recminor |-> m] @@ h : m \in 0..4, h \in {Base, [Base EXCEPT !.legacy = 769, !.exts = <<Sni(Host)>>], [Base EXCEPT !.exts = <<Sv(<<772, 771>>), AlpnE(<<H2>>)>>]}}
 
 Cases == CASE Fam = "recver" -> RecVerCases [] Fam = "lookalike" -> LookCases [] Fam = "alpn" -> AlpnCases [] Fam = "embed" -> EmbedCases [] Fam = "ver" -> VerCases [] Fam = "presence" -> PresenceCases [] Fam = "perm" -> PermCases
-           [] Fam = "grease" -> GreaseCases [] Fam = "sizes" -> SizeCases [] Fam = "misc" -> MiscCases
+           [] Fam = "grease" -> GreaseCases [] Fam = "big" -> BigCases [] Fam = "sizes" -> SizeCases [] Fam = "misc" -> MiscCases
 CaseSeq == SetToSeq(Cases)
 
 Laws(h) ==
